@@ -17,6 +17,23 @@ import (
 //   - client/runtime.go Submit: `request.timeout == 0` selects context.WithCancel, otherwise
 //     context.WithTimeout; `defer cancel()` and `defer res.Body.Close()` are both present;
 //   - client/runtime.go: DefaultTimeout in seconds.
+var (
+	c12AfterIf                      *ast.IfStmt
+	c12AfterParent, c12AfterTimeout string
+)
+
+// c12CallArg: the text of argument i of the first call of fn (as printed) inside n, "" when there is none.
+func c12CallArg(n ast.Node, fn string, i int) string {
+	res := ""
+	ast.Inspect(n, func(m ast.Node) bool {
+		if ce, ok := m.(*ast.CallExpr); ok && res == "" && exprString(ce.Fun) == fn && i < len(ce.Args) {
+			res = exprString(ce.Args[i])
+		}
+		return true
+	})
+	return res
+}
+
 func init() {
 	gen(func() {
 		cond := ""
@@ -97,21 +114,46 @@ func init() {
 
 		zeroCancel, elseTimeout, deferCancel, deferClose := false, false, false, false
 		if fd := funcDecl("client/runtime.go", "Runtime", "Submit"); fd != nil && fd.Body != nil {
-			ast.Inspect(fd.Body, func(n ast.Node) bool {
+			ast.Inspect(reach("client/runtime.go", fd), func(n ast.Node) bool {
 				switch x := n.(type) {
 				case *ast.IfStmt:
-					if exprString(x.Cond) == "request.timeout == 0" {
-						zeroCancel = strings.Contains(exprString(x.Body), "context.WithCancel(parentCtx)")
-						if x.Else != nil {
-							elseTimeout = strings.Contains(exprString(x.Else), "context.WithTimeout(parentCtx, request.timeout)")
-						}
+					// `if <…>timeout == 0 { … context.WithCancel(<parent>) … }` and, in the else branch or (when the
+					// branch returns) behind the statement, `context.WithTimeout(<parent>, <…>timeout)`; whatever the
+					// locals are called
+					be, ok := x.Cond.(*ast.BinaryExpr)
+					if !ok || be.Op != token.EQL || exprString(be.Y) != "0" || !strings.HasSuffix(exprString(be.X), "timeout") {
+						break
 					}
+					timeoutName := exprString(be.X)
+					parent := c12CallArg(x.Body, "context.WithCancel", 0)
+					zeroCancel = parent != ""
+					if x.Else != nil {
+						elseTimeout = c12CallArg(x.Else, "context.WithTimeout", 0) == parent && c12CallArg(x.Else, "context.WithTimeout", 1) == timeoutName
+					} else {
+						c12AfterIf = x
+						c12AfterParent, c12AfterTimeout = parent, timeoutName
+					}
+
 				case *ast.DeferStmt:
 					switch exprString(x.Call) {
 					case "cancel()":
 						deferCancel = true
 					case "res.Body.Close()":
 						deferClose = true
+					}
+				}
+				return true
+			})
+			// second pass: the statements behind an `if timeout == 0 { return WithCancel }` without else
+			ast.Inspect(reach("client/runtime.go", fd), func(n ast.Node) bool {
+				if blk, ok := n.(*ast.BlockStmt); ok && c12AfterIf != nil {
+					for i, st := range blk.List {
+						if st == ast.Stmt(c12AfterIf) {
+							rest := &ast.BlockStmt{List: blk.List[i+1:]}
+							if c12CallArg(rest, "context.WithTimeout", 0) == c12AfterParent && c12CallArg(rest, "context.WithTimeout", 1) == c12AfterTimeout {
+								elseTimeout = true
+							}
+						}
 					}
 				}
 				return true
